@@ -6,13 +6,13 @@ _WRAP = ["-Wl,--wrap=sendto", "-Wl,--wrap=recvfrom"]
 PROP = dict(
     harnesses={_H: dict(sources=["harness/c15_dns.cpp"], ldflags=_WRAP)},
     legs=[
-        dict(name="parse", harness=_H, flavour="asan", mode="parse", args=["--watchdog", "240"], quick=400, thorough=40000,
+        dict(name="parse", harness=_H, flavour="asan", mode="parse", args=["--watchdog", "240"], quick=800, thorough=60000,
              case_timeout=600),
-        dict(name="memcheck", harness=_H, flavour="plain", mode="memcheck", args=["--watchdog", "600"], quick=24, thorough=1200,
-             min_shard=6, case_timeout=900),
-        dict(name="history", harness=_H, flavour="asan", mode="history", args=["--watchdog", "240"], quick=6000, thorough=400000),
-        dict(name="udp", harness=_H, flavour="asan", mode="udp", args=["--watchdog", "240"], quick=1500, thorough=60000),
-        dict(name="wrap", harness=_H, flavour="asan", mode="wrap", args=["--watchdog", "600"], quick=0, thorough=16, scalable=False),
+        dict(name="memcheck", harness=_H, flavour="plain", mode="memcheck", args=["--watchdog", "600"], quick=16, thorough=800,
+             min_shard=2, case_timeout=900),
+        dict(name="history", harness=_H, flavour="asan", mode="history", args=["--watchdog", "240"], quick=30000, thorough=1500000),
+        dict(name="udp", harness=_H, flavour="asan", mode="udp", args=["--watchdog", "240"], quick=6000, thorough=300000),
+        dict(name="wrap", harness=_H, flavour="asan", mode="wrap", args=["--watchdog", "600"], quick=2, thorough=24, scalable=False),
     ],
     rule="TBD",
     assumptions=[],
